@@ -36,7 +36,7 @@ func DumpIDL(ast *parser.Thrift) (string, error) {
 	var sb stringBuilder
 
 	for _, include := range ast.Includes {
-		sb.writeString(fmt.Sprintf("include \"%s\"\n", include.Path))
+		sb.writeString(fmt.Sprintf("include %s\n", strings.ReplaceAll(joinQuotes(include.Path), `"`, "##34;")))
 	}
 
 	if len(ast.Includes) > 0 {
@@ -54,7 +54,7 @@ func DumpIDL(ast *parser.Thrift) (string, error) {
 	}
 
 	for _, include := range ast.CppIncludes {
-		sb.writeString(fmt.Sprintf("cpp_include \"%s\"\n", include))
+		sb.writeString(fmt.Sprintf("cpp_include %s\n", strings.ReplaceAll(joinQuotes(include), `"`, "##34;")))
 	}
 
 	if len(ast.CppIncludes) > 0 {
